@@ -35,7 +35,9 @@ structure UserFn where
                               -- del targets, nested def & class names, `nonlocal` declarations, and the same inside nested
                               -- functions, lambdas and comprehensions (their parameters / targets)
   read : List String          -- names whose reads reach the function's body scope (`BODY_SCOPE.referenced`): loads in the
-                              -- function's own blocks, `global`/`nonlocal` declarations, augmented-assignment and `del`
+                              -- function's own blocks, `global`/`nonlocal` declarations (also those of nested functions: a name a
+                              -- nested function declares nonlocal/global and reads reaches the body scope - Scope.finalize forwards
+                              -- `read - (bound - nonlocals - globals)`), augmented-assignment and `del`
                               -- targets, and reads inside nested functions/lambdas of names those do not bind themselves
   readLocal : List String     -- names read somewhere, but only inside nested scopes that bind them (so not in `read`)
   free : List String          -- names read in the function text and resolved OUTSIDE it (not bound at the function's own
@@ -46,7 +48,7 @@ structure UserFn where
   kwCalls : Bool := false     -- the function text contains a call with keyword / `**kw` arguments (lowered through `dict(...)`)
   nestedDefOnly : List String := []   -- names of `readLocal` whose nested bindings are all plain local assignments of nested
                               -- `def`s (not parameters - those leak into the enclosing `bound` on the pinned tree -, not
-                              -- `nonlocal`, not lambda parameters, not comprehension targets)
+                              -- lambda parameters, not comprehension targets)
   deriving Repr, Inhabited
 
 def UserFn.userNames (f : UserFn) : List String := f.bound ++ f.read ++ f.ns
@@ -136,7 +138,7 @@ def isVariant (root x : String) : Bool :=
 /-- Every name the function binds THAT THE NAMER COULD HAND OUT for one of the converters' roots (`break_`, `break__3`,
 `fscope`, …) is also read (in a way that reaches the body scope) or is in the namespace — so that it is in the reserved
 set of every converter-level request.  FALSE for write-only names and for names that are read only inside a nested
-scope binding them (lambda parameter, comprehension target, nested function's local or `nonlocal`): callers reserve
+scope binding them (lambda parameter, comprehension target, nested function's parameter or local): callers reserve
 `scope.referenced`, which contains reads only. -/
 def BoundNamesReserved (f : UserFn) : Prop :=
   ∀ x ∈ f.bound, Gen.Naming.converterRoots.any (fun r => isVariant r x) = true → x ∈ f.read ∨ x ∈ f.ns
@@ -176,8 +178,7 @@ def clsNestedBound (f : UserFn) (roots : List String) (x : String) : Bool :=
   f.bound.contains x && !f.read.contains x && f.readLocal.contains x && !f.ns.contains x &&
   roots.any (fun r => isVariant r x)
 
-/-- The part of `clsNestedBound` where the coincidence can CHANGE BEHAVIOUR: the nested binding shares the outer variable
-(`nonlocal`) or generated code inside the nested scope refers to the outer generated name (`fscope` inside a lambda or
+/-- The part of `clsNestedBound` where the coincidence can CHANGE BEHAVIOUR: generated code inside the nested scope refers to the outer generated name (`fscope` inside a lambda or
 comprehension; a lambda entity's own parameters; a nested function's PARAMETER, which the pinned activity analysis leaks
 into the enclosing block's `bound`, so that the block re-initialises the name).  When every nested binding is a plain local
 assignment of a nested `def`, the outer generated name and that local are different variables: the coincidence is syntactic only, and a
